@@ -192,3 +192,53 @@ def run(ctx):
            '%d function(s) scanned; %s' % (len(scope_fns), 'no hard_link / symlink call: snapshots and workspace files never share an inode' if not links else
                                            '%s calls %s: a workspace file can alias a stored snapshot' % (links[0][0].path, links[0][1].callee)),
            line=links[0][1].line if links else 0)
+
+    # ---------------------------------------------------------------- C14.6
+    ctx.rule('C14.6', 'the checkpointer reads the arguments the tool reads: for every argument struct the auto-checkpoint parses on its own (runtime.rs `WriteArgs`, `ApplyPatchArgs`) the same-named struct of the tool (builtins/*.rs) accepts exactly the same wire names (field name / rename / aliases, container rename_all) for the fields the checkpointer uses. A spelling only the tool accepts (`file_path`) runs the edit while the checkpoint step fails to find the path — the edit cannot be undone.')
+    import glob as _glob
+    import os as _os
+    from . import serde_table as _st
+    rt_file = _os.path.join(P.root, 'crates/rip-tools/src/runtime.rs')
+    bfiles = sorted(_glob.glob(_os.path.join(P.root, 'crates/rip-tools/src/builtins/*.rs')))
+    tabs = _st.table([rt_file] + bfiles)
+
+    def wire(item, fld):
+        names = [v for k, v in fld['serde'] if k == 'rename'] or [fld['name']]
+        return sorted(set(names + [v for k, v in fld['serde'] if k == 'alias'])), sorted(v for k, v in item['serde'] if k in ('rename_all', 'deny_unknown_fields'))
+    rt_items = [it for it in tabs[0]['items'] if it['name'].endswith('Args') and it.get('fields')]
+    tool_items = {}
+    for tb in tabs[1:]:
+        for it in tb['items']:
+            if it.get('fields') and it.get('module', '') == '':
+                tool_items.setdefault(it['name'], it)
+    n6 = 0
+    for it in rt_items:
+        sib = tool_items.get(it['name'])
+        if sib is None:
+            ctx.ob('C14.6', 'rip_tools::runtime::' + it['name'], 'sibling-struct', False, 'the tool-side argument struct `%s` was not found in builtins/*.rs' % it['name'], line=it['line'])
+            continue
+        for fld in it['fields']:
+            n6 += 1
+            sf = next((x for x in sib['fields'] if x['name'] == fld['name']), None)
+            same = sf is not None and wire(it, fld) == wire(sib, sf)
+            ctx.ob('C14.6', 'rip_tools::runtime::' + it['name'], 'same-wire-names:' + fld['name'], same,
+                   'checkpointer accepts %s, the tool accepts %s' % (wire(it, fld)[0], wire(sib, sf)[0] if sf else 'no such field') + ('' if same else ': a call spelled the way only the tool understands is executed without a usable checkpoint'), line=it['line'])
+    ctx.floor('C14.6', 'argument fields the checkpointer parses on its own', n6, 2)
+
+    # ---------------------------------------------------------------- C14.7
+    ctx.rule('C14.7', 'rewind restores every covered file, unconditionally: in the apply step of rewind_to_checkpoint every path from the `file.exists == true` edge of a checkpoint entry to the next entry (or the return) passes the fs::write of that entry or an error exit — no shortcut decides from metadata (size, mtime) that a file "is still the same".')
+    ap14 = apply_cl[0]
+    ws14 = [s_.bb for s_ in ap14.calls(r'^std::fs::write$')]
+    errs14 = [s_.bb for s_ in ap14.calls(r'FromResidual<.*>>::from_residual$')] + [bi for (bi, si, st) in ap14.aggregates(r'^core::result::Result$', 'Err')]
+    n7 = 0
+    for (bi, on, ts, els) in switches(ap14):
+        o = ap14.origin(on)
+        if o[0] == 'local' and any(isinstance(pp, dict) and pp.get('n') == 'exists' and pp.get('o', '').endswith('CheckpointFile') for pp in o[2]):
+            n7 += 1
+            true_t = els if '0' in ts else ts.get('1')
+            h7 = ap14.innermost_loop(bi)
+            targets = list(ap14.returns()) + ([h7] if h7 is not None else [])
+            ok = bool(ws14) and true_t is not None and ap14.must_pass(ws14 + errs14, true_t, targets)
+            ctx.ob('C14.7', ap14, 'existing-entry-always-written', ok, 'a checkpoint entry that existed %s' % ('is written back on every non-error path' if ok else
+                   'can be SKIPPED (a path from the exists-edge reaches the next entry without fs::write): the workspace keeps bytes that are not the checkpointed ones while rewind reports success'), line=ap14.blocks[bi]['t'].get('ln'))
+    ctx.floor('C14.7', 'tests of CheckpointFile.exists in the apply step', n7, 1)
